@@ -88,7 +88,8 @@ class vBinary:
     params: Parameters
 
     def __init__(self, obj):
-        self.obj = to_unicode(obj)
+        # the octets are the payload: leading EF BB BF is not a byte order mark
+        self.obj = to_unicode(obj, encoding=DEFAULT_ENCODING)
         self.params = Parameters(encoding='BASE64', value="BINARY")
 
     def __repr__(self):
